@@ -26,6 +26,9 @@ def toGM (m : CSM α) : GCSMatrix α := ⟨(m.major : Int), (m.minor : Int), m.r
 @[simp] theorem toGM_MinorDim (m : CSM α) : (toGM m).MinorDim = (m.minor : Int) := rfl
 @[simp] theorem toGM_Entries (m : CSM α) : (toGM m).Entries = m.rows.map toGs := rfl
 
+/-- model coordinate entry ↦ Go `CooEntry`. -/
+def toGCoo (e : Coo α) : GCooEntry α := ⟨(e.row : Int), (e.col : Int), e.val⟩
+
 /-- the conversions used by the externs of the generated file are the bridge's. -/
 @[simp] theorem entryToG_eq (e : Entry α) : entryToG e = toG e := rfl
 @[simp] theorem entryOfG_toG (e : Entry α) : entryOfG (toG e) = e := by
